@@ -1,6 +1,7 @@
 """C06 — byte input is decoded with the encoding the documented precedence selects."""
 import io
 import itertools
+import re
 
 from h5 import lean, trees, wire
 
@@ -580,6 +581,15 @@ def oracle_late(ctx):
                          {"parent": "windows-1252"}):
                 data = pad + form(label.encode("ascii")) + b"</head><body>\xe9\xc1</body>"
                 run_late(ctx, data, args, label, "late-form%d" % fi)
+    # the standard's in-head rule: "if the element has a charset attribute AND getting an encoding from its value results in an
+    # encoding ... change the encoding; OTHERWISE, if it has http-equiv=content-type and a content attribute that yields an
+    # encoding ... change the encoding" - a charset attribute that names no encoding does not suppress the pragma
+    for bad in (b"charset=bogus", b'charset=""', b"charset"):
+        for label in ("koi8-r", "utf-8", "bogus"):
+            for args in ({}, {"likely": "iso-8859-2"}):
+                data = pad + b"<meta " + bad + b' http-equiv="Content-Type" content="text/html; charset=' + label.encode("ascii") + \
+                    b'"></head><body>\xe9\xc1</body>'
+                run_late(ctx, data, args, label, "late-pragma-after-invalid-charset")
     # a late declaration under a tentative UTF-16 (likely_encoding): the standard keeps UTF-16
     text = (pad + b"<meta charset=koi8-r></head><body>x</body>").decode("ascii")
     run_late(ctx, text.encode("utf-16le"), {"likely": "utf-16le"}, "koi8-r", "late-under-utf16")
@@ -630,6 +640,16 @@ def run_late(ctx, data, args, label, src):
             cls = "late-meta:x-user-defined-not-mapped"
         else:
             cls = "late-meta:final-encoding-differs"
+            # recorded only when the defect explains everything: nothing was changed, and the same element WITHOUT its
+            # charset attribute gives exactly the expected result
+            m = re.search(rb"<meta (charset=bogus|charset=\"\"|charset) http-equiv", data)
+            if m and (final, fconf) == (cur, conf):
+                try:
+                    _, f2, c2 = parse_bytes(data[:m.start()] + b"<meta http-equiv" + data[m.end():], full)
+                    if (f2, c2) == exp:
+                        cls = "late-meta:pragma-ignored-after-charset-attribute-without-encoding"
+                except Exception:
+                    pass
         ctx.fail(cls, "after a <meta> declaration met during tree construction the reported encoding differs from the "
                  "standard's 'changing the encoding while parsing'", inp)
     # the property's clause "a declared UTF-16 in <meta> means UTF-8": unless the document is itself being read as
